@@ -1,15 +1,21 @@
 #!/usr/bin/env python3
-"""Copy confirmed seeded changes from /tmp/seed_Cxx/change_i + /tmp/seedres/Cxx_i.json into /verif/seeded/<id>/
-(patch.diff, demo.py, meta.json) and print the detection table for DESIGN.md."""
+"""Copy confirmed seeded changes (scratch dirs /tmp/seed*_Cxx/change_i + the seedtest results in the directory given as argv[1],
+default /tmp/seedres3) into /verif/seeded/<id>/ (patch.diff, demo.py, meta.json) and print the detection table for DESIGN.md.
+argv[2] (optional): the /repo commit the results were obtained on."""
 import glob
 import json
 import os
 import re
 import shutil
+import subprocess
+import sys
+
+RES = sys.argv[1] if len(sys.argv) > 1 else "/tmp/seedres3"
+BASE = sys.argv[2] if len(sys.argv) > 2 else subprocess.run("git -C /repo rev-parse --short HEAD", shell=True, capture_output=True, text=True).stdout.strip()
 
 V = os.path.dirname(os.path.dirname(os.path.abspath(__file__)))
 rows = []
-for f in sorted(glob.glob("/tmp/seedres/C*_*.json")):
+for f in sorted(glob.glob(RES + "/C*_*.json")):
     sid = os.path.basename(f)[:-5]
     try:
         r = json.load(open(f))
@@ -25,7 +31,8 @@ for f in sorted(glob.glob("/tmp/seedres/C*_*.json")):
     files = sorted(set(re.findall(r"^\+\+\+ b/(\S+)", open(os.path.join(src, "patch.diff")).read(), re.M)))
     caught = r.get("check_exit") == 1
     meta = {
-        "id": sid, "property": r["property"], "files_changed": files,
+        "id": sid, "property": r["property"], "round": (2 if "_r2_" in sid else 3 if "_r3_" in sid else 1), "files_changed": files,
+        "applies_to_repo_commit": BASE,
         "confirmed": confirmed,
         "what_i_ran": {"demo on unchanged /repo": f"exit {r.get('demo_unpatched_exit')}", "demo with patch applied to /repo": f"exit {r.get('demo_patched_exit')}",
                        "existing tests with patch": f"exit {r.get('tests_exit')} ({r.get('tests_tail')})",
